@@ -12,6 +12,7 @@
 (***************************************************************************)
 EXTENDS Deserr
 
+CONSTANT Lax              \* TRUE: the freedoms the properties leave are explored too (value behind an unparsable map key examined)
 CONSTANT Canonical        \* TRUE: members in source order, then missing checks (mirrors the current code; emits REPLAY)
 
 Inputs == ndJsonDeserialize(IOEnv.MCIN)
@@ -21,7 +22,7 @@ mvars == <<stack, cur, made, reps, hist, out, phase, stopped, newAfterStop, idc,
 
 \* the declarative fault list of an input is computed once, when the input is chosen (it only depends on the run through the
 \* failures of user functions, fnf)
-MkCur(i) == [idx |-> i, ty |-> Inputs[i].ty, val |-> Inputs[i].val, pk |-> Inputs[i].pk, canonical |-> Canonical, stopped |-> FALSE,
+MkCur(i) == [idx |-> i, ty |-> Inputs[i].ty, val |-> Inputs[i].val, pk |-> Inputs[i].pk, canonical |-> Canonical, stopped |-> FALSE, lax |-> Lax,
              faults0 |-> Faults(Inputs[i].ty, Inputs[i].val, <<>>, Inputs[i].pk, {})]
 
 NoOut == [z |-> "none", val |-> UnitRV, ids |-> <<>>]
@@ -74,7 +75,8 @@ RetValue(F) ==
 Take(c) ==
     CASE c.e = "enter" ->
             /\ stack' = PushChild(stack, cur, c.n, c.loc, Child(Top(stack), c.ob).val, c.ob, c.ety)
-            /\ UNCHANGED <<made, reps, hist, out, phase, stopped, newAfterStop, idc, fnf, usedfn>>
+            /\ fnf' = IF c.ob.o = "optval" THEN fnf \cup {[f |-> "optval", loc |-> c.loc, j |-> c.ob.i]} ELSE fnf
+            /\ UNCHANGED <<made, reps, hist, out, phase, stopped, newAfterStop, idc, usedfn>>
       [] c.e = "err" ->
             /\ stack' = AfterErr(stack, NextId, c.ob, c.ans)
             /\ made' = made \cup {NextId}
